@@ -83,9 +83,9 @@ theorem get_put (base : Cid → Resources) (s : Sim) (c c' : Cid) (r : Resources
         | cons x rest ih =>
           intro h
           by_cases hx : x.1 = c'
-          · simp [List.find?_cons, hx]
+          · simp [hx]
           · simp only [List.any_cons, hx, decide_false, Bool.false_or] at h
-            simp [List.find?_cons, hx, ih h]
+            simp [hx, ih h]
       rw [this _ hany]
     · simp only [hc, ↓reduceIte]
       have : ∀ l : List (Cid × Resources),
@@ -99,10 +99,10 @@ theorem get_put (base : Cid → Resources) (s : Sim) (c c' : Cid) (r : Resources
           by_cases hx : x.1 = c
           · have hx' : ¬ x.1 = c' := fun h => hc (h.symm.trans hx)
             have hcc : ¬ c = c' := fun h => hc h.symm
-            simp [List.find?_cons, hx, hx', hcc, ih]
+            simp [hx, hcc, ih]
           · by_cases hx' : x.1 = c'
-            · simp [List.find?_cons, hx, hx', hc]
-            · simp [List.find?_cons, hx, hx', ih]
+            · simp [hx', hc]
+            · simp [hx, hx', ih]
       rw [this]
   · rename_i hany
     unfold Sim.get
